@@ -300,10 +300,10 @@ func runDOT(c *harness.Ctx) harness.Result {
 
 var (
 	cgHeader  = regexp.MustCompile(`^(positions: instr line|events: \S.*)$`)
-	cgName    = regexp.MustCompile(`^(ob|fl|fn|cfl|cfn)=(?:\((\d+)\)(?: (.*))?)?$`)
+	cgName    = regexp.MustCompile(`^(ob|fl|fn|cfl|cfn|cob)=(?:\((\d+)\)(?: (.*))?)?$`)
 	cgCost    = regexp.MustCompile(`^(0x[0-9a-f]+|[+-]\d+|\*) (\d+|\*|[+-]\d+) (-?\d+)$`)
 	cgCalls   = regexp.MustCompile(`^calls=(\d+) (0x[0-9a-f]+|[+-]\d+|\*) (\d+|\*|[+-]\d+)$`)
-	cgRelaxed = regexp.MustCompile(`^(ob|fl|fn|cfl|cfn)=`)
+	cgRelaxed = regexp.MustCompile(`^(ob|fl|fn|cfl|cfn|cob)=`)
 )
 
 // checkCallgrind verifies the line grammar and the name compression of a callgrind document.
